@@ -38,7 +38,9 @@ def register(R, tier="quick"):
                 p = f["case"].split("-")[0]
                 if p == prop or not p.startswith("C"):
                     f = dict(f)
-                    f["snippet"] = None
+                    f["snippet"] = ("import runpy, sys\nsys.argv = ['matchers_bounded.py', '--corpus', %r]\n"
+                                    "runpy.run_path(%r, run_name='__main__')\n"
+                                    % (json.dumps(f["corpus"]), os.path.join(ROOT, "bounded", "matchers_bounded.py")))
                     fs.append(f)
             out["failures"] = fs
             return out
